@@ -352,6 +352,10 @@ func (c *Channel) onReadySession(now time.Time) error {
 	sessRemote := se.Session.RemoteKey()
 	if err := c.checkKey(&sessRemote); err != nil {
 		c.setNext(sessionEntry{})
+		if c.waiting > 0 {
+			// callers are still waiting for a session with the right peer: try again after a pause.
+			c.rekeyTimer.Reset(c.params.HandshakeBackoff)
+		}
 		return errors.New("session negotiated with wrong peer")
 	}
 	c.remoteKey = se.Session.RemoteKey()
